@@ -85,6 +85,19 @@ def handle (op : String) (args : List String) : String :=
     | "zerop", [a] => okBool (zerop a)
     | "plusp", [a] => okBool (plusp a)
     | "minusp", [a] => okBool (minusp a)
+    | "logcount", [a] => if a.den = 1 then okRat (logcount a.num) else showErr .typeErr
+    | "integer-length", [a] => if a.den = 1 then okRat (integerLength a.num) else showErr .typeErr
+    | "logbitp", [i, a] => if i.den = 1 ∧ a.den = 1 then
+          (match logbitp i.num a.num with
+           | .ok b => okBool b
+           | .error e => showErr e)
+        else showErr .typeErr
+    | "evenp", [a] => if a.den = 1 then okBool (evenp a.num) else showErr .typeErr
+    | "oddp", [a] => if a.den = 1 then okBool (oddp a.num) else showErr .typeErr
+    | "signum", [a] => okRat (signum a)
+    | "numerator", [a] => okRat (numerator a)
+    | "denominator", [a] => okRat (denominator a)
+    | "rational", [a] => okRat a
     | "value", [a] => okRat a
     | _, _ => "bad-request op"
 
